@@ -603,6 +603,14 @@ def mask(R):
             a, b = U(inner.generators[0].target), U(t.generators[0].target)
             okx = U(inner.generators[0].iter) == 'range(256)' and isinstance(inner.elt, ast.BinOp) \
                 and isinstance(inner.elt.op, ast.BitXor) and {U(inner.elt.left), U(inner.elt.right)} == {a, b}
+    if not okx:
+        # decided by value: the table is evaluated (constant comprehensions, a pure builder function)
+        from ..consteval import module_consts
+        tv = module_consts(R, 'mask').get('_XOR_TABLE')
+        try:
+            okx = isinstance(tv, list) and len(tv) == 256 and all(bytes(tv[b]) == bytes(a ^ b for a in range(256)) for b in range(256))
+        except Exception:
+            okx = False
     R.ob('C03.mask', 'XOR tables', okx, '_XOR_TABLE is not [bytes(a ^ b for a in range(256)) for b in range(256)]',
          func=f2, node=(live[0] if live else f2.node), construct='_XOR_TABLE')
 
